@@ -413,6 +413,11 @@ def h_r1(p: Project, rep: Report):
                 body_t = text(_PT.value_on_path(q, pcfg, v.elts[1], upto=len(q.nodes) - 1))
                 if _re.fullmatch(_re.escape(src) + r"\.read\(\)\.decode\([\w.]+\.codec\)(\.strip\(\))?", body_t):
                     pass
+                elif "TextIOWrapper(" in body_t:
+                    if _re.search(r"TextIOWrapper\([^)]*newline=''", body_t):
+                        pass
+                    else:
+                        altered = body_t + "  [a text wrapper in universal-newlines mode rewrites every \\r\\n and lone \\r of the body to \\n]"
                 elif f"{src}.read().decode(" in body_t and (_re.search(r"\)\[[^\]]*:[^\]]*\]", body_t) or ".rfind(" in body_t or ".find(" in body_t or ".replace(" in body_t or ".split(" in body_t or ".partition(" in body_t or ".rpartition(" in body_t):
                     altered = body_t
                 else:
@@ -509,3 +514,43 @@ def _is_chunk(v: str, src: str) -> bool:
                 if v == f"{src}.{meth}.decode({q}{codec}{q})":
                     return True
     return False
+
+
+def b_r9_quote_backrefs(p: Project, rep: Report):
+    """every back-reference in the XML-declaration pattern closes the quote that was opened for the same attribute"""
+    rep.rule("B-R9", "in the XML-declaration pattern every pseudo-attribute is closed by the quote it was opened with: each back-reference refers to the quote group captured immediately before it in the same attribute (a reference to another attribute's quote rejects declarations without that attribute, or with mixed quote characters, so a valid version-2 file is taken for version 1)")
+    try:
+        r = rx.module_regex(p, HEADER, "XML_REGEX")
+    except AnalysisError as e:
+        rep.undecided("B-R9", e)
+        return
+    names = {v: k for k, v in r.groups.items()}
+    n = 0
+
+    def walk(seq):
+        nonlocal n
+        last_quote = None
+        for op, av in seq:
+            if op is rx.sre_c.SUBPATTERN:
+                g, _a, _d, inner = av
+                inner_l = list(inner)
+                cs = None
+                if len(inner_l) == 1 and inner_l[0][0] is rx.sre_c.IN:
+                    cs = rx.charset(inner_l[0][1])
+                if g in names and cs is not None and cs and cs <= set("\"'"):
+                    last_quote = g
+                else:
+                    walk(inner_l)
+            elif op in (rx.sre_c.MAX_REPEAT, rx.sre_c.MIN_REPEAT):
+                walk(list(av[2]))
+            elif op is rx.sre_c.BRANCH:
+                for alt in av[1]:
+                    walk(list(alt))
+            elif op is rx.sre_c.GROUPREF:
+                n += 1
+                ok = last_quote is not None and av == last_quote
+                rep.check("B-R9", f"XML_REGEX:backref({names.get(av, av)})", ok, f"the closing quote refers to group {names.get(av, av)!r}, but the quote opened for this attribute is {names.get(last_quote, last_quote)!r}" if not ok else "", r.where)
+
+    walk(list(r.tree))
+    if n == 0:
+        rep.note("B-R9 undecided: XML_REGEX has no back-references")
